@@ -6,6 +6,7 @@ mkdir -p .work evidence replays
 command -v java >/dev/null
 test -f /opt/veriftools/tla/tla2tools.jar
 test -f /opt/veriftools/tla/CommunityModules-deps.jar
+command -v tlapm >/dev/null      # TLAPS: re-checks spec/TilesProof.tla, SexaProof.tla, ExpandProof.tla inside C20, C17, C15
 PYTHONPATH=/repo /venv/bin/python -W ignore -c "import numpy, scipy, astropy, lmfit, healpy, AegeanTools" 2>/dev/null
 chmod +x check
 echo "setup ok"
